@@ -1,7 +1,9 @@
 (** * NumF32: the binary32 instance used to run the model against the `float` (f32) build.
     Carrier: primitive binary64 floats that always hold binary32 values; every operation is the
-    binary64 operation followed by rounding to binary32 (innocuous double rounding for + - * / sqrt,
-    since 53 >= 2*24+2); the rounding itself is Flocq's [binary_normalize] at (24,128). *)
+    binary64 operation followed by rounding to binary32; the rounding itself is Flocq's [binary_normalize] at (24,128).
+    The double rounding is innocuous for + - * / sqrt (53 >= 2*24+2): this is PROVED, special values included, in
+    Theory/F32Bridge.v ([of_b32_hom : NumHom NumB32 NumF32 of_b32], [double_rounding_innocuous]; property theorems
+    [C07_prim32_double_rounding_innocuous] ... in Properties/C07_prim32.v): the instance IS IEEE binary32 ([NumB32]). *)
 From Coq Require Import ZArith Floats Bool List.
 From Flocq Require Import IEEE754.BinarySingleNaN.
 From G3 Require Import Model.Num Model.NumF.
